@@ -283,7 +283,8 @@ func (x *Exec) havocAll(st *State) {
 func (x *Exec) havocKeyPrefix(st *State, prefix string) {
 	// keys are created lazily, so a prefix havoc must also affect keys not yet
 	// materialised: record by bumping a per-prefix generation.
-	for k, t := range st.heap {
+	for _, k := range sortedKeys(st.heap) {
+		t := st.heap[k]
 		if keyMatches(k, prefix) {
 			st.heap[k] = x.c.Fresh("Hh_"+k, t.sort)
 			if os.Getenv("GOVC_DEBUG_HAVOC") != "" && strings.Contains(k, os.Getenv("GOVC_DEBUG_HAVOC")) && x.curInstr != nil {
@@ -318,7 +319,8 @@ func (x *Exec) heapGetK(st *State, key string, sort Sort) *Term {
 	// was a matching prefix havoced before the first touch?
 	var tags []string
 	onlyLoop := true
-	for g, v := range st.tags {
+	for _, g := range sortedKeys(st.tags) {
+		v := st.tags[g]
 		if keyMatches(key, g) {
 			tags = append(tags, fmt.Sprint(v))
 			if !x.loopTags[v] {
@@ -896,6 +898,7 @@ func (x *Exec) relevantHyps(ob *Obligation) []*Term {
 		for k := range m {
 			s = append(s, k)
 		}
+		sort.Strings(s)
 		x.symCache[t] = s
 		return s
 	}
@@ -1039,12 +1042,14 @@ func (x *Exec) mergeStates(ins []edgeState) *State {
 	for i := len(ins) - 2; i >= 0; i-- {
 		s := ins[i].st
 		cond := s.reach
-		for k, srt := range allKeys {
+		for _, k := range sortedKeys(allKeys) {
+			srt := allKeys[k]
 			a := x.heapGetRaw(s, k, srt)
 			b := x.heapGetRaw(res, k, srt)
 			res.heap[k] = c.Ite(cond, a, b)
 		}
-		for cell, bv := range res.cells {
+		for _, cell := range sortedAllocs(res.cells) {
+			bv := res.cells[cell]
 			if av, ok := s.cells[cell]; ok {
 				if !valueSame(av, bv) {
 					res.cells[cell] = x.mergeValue(cond, av, bv)
@@ -1056,7 +1061,8 @@ func (x *Exec) mergeStates(ins []edgeState) *State {
 				res.cells[cell] = av
 			}
 		}
-		for g, bv := range res.ghost {
+		for _, g := range sortedKeys(res.ghost) {
+			bv := res.ghost[g]
 			if av, ok := s.ghost[g]; ok && av != bv {
 				res.ghost[g] = c.Ite(cond, av, bv)
 			}
@@ -1066,7 +1072,8 @@ func (x *Exec) mergeStates(ins []edgeState) *State {
 				res.ghost[g] = av
 			}
 		}
-		for g, av := range s.tags {
+		for _, g := range sortedKeys(s.tags) {
+			av := s.tags[g]
 			if bv, ok := res.tags[g]; !ok {
 				res.tags[g] = av
 			} else if av != bv {
@@ -1119,7 +1126,7 @@ func (x *Exec) heapGetRaw(st *State, key string, srt Sort) *Term {
 func (x *Exec) loopWrites(li *loopInfo) (cells map[*ssa.Alloc]bool, eff *Effects) {
 	cells = map[*ssa.Alloc]bool{}
 	eff = newEffects()
-	for b := range li.blocks {
+	for _, b := range sortedBlocks(li.blocks) {
 		for _, in := range b.Instrs {
 			x.w.instrEffects(in, eff, cells, x)
 		}
@@ -1134,7 +1141,7 @@ func (x *Exec) enterLoop(fn *ssa.Function, fc *FuncContract, li *loopInfo, st *S
 	// 2. havoc everything assigned in the loop
 	ns := st.clone()
 	cells, eff := x.loopWrites(li)
-	for cell := range cells {
+	for _, cell := range sortedAllocs(cells) {
 		if old, ok := ns.cells[cell]; ok {
 			t := cell.Type().(*types.Pointer).Elem()
 			nv := x.freshValue("L"+fmt.Sprint(li.ordinal)+"_"+cell.Comment, t)
@@ -1145,7 +1152,7 @@ func (x *Exec) enterLoop(fn *ssa.Function, fc *FuncContract, li *loopInfo, st *S
 	}
 	// escaped cells may be written by calls in the loop
 	if eff.all {
-		for cell := range x.escaped {
+		for _, cell := range sortedAllocs(x.escaped) {
 			if _, ok := ns.cells[cell]; ok {
 				t := cell.Type().(*types.Pointer).Elem()
 				ns.cells[cell] = x.freshValue("Lesc_"+cell.Comment, t)
@@ -1175,7 +1182,7 @@ func (x *Exec) enterLoop(fn *ssa.Function, fc *FuncContract, li *loopInfo, st *S
 		}
 	}
 	// the hidden position of a range-over-string loop advances in the loop that contains its Next
-	for b := range li.blocks {
+	for _, b := range sortedBlocks(li.blocks) {
 		for _, in := range b.Instrs {
 			if nx, ok := in.(*ssa.Next); ok && nx.IsString {
 				if rg, ok := nx.Iter.(*ssa.Range); ok {
